@@ -428,8 +428,71 @@ def bounded_custom(tier):
                     run, backend='bounded', kind='bounded', budget=600)
 
 
+# ---------------------------------------------------------------------------------------------------------------------------------
+# the collision routine itself (mujoco.mjx.collision, external): its contract "true primitive distances for the world geom poses it is given" is VERIFIED here for the
+# pair types whose distance is a closed form without guard constants (plane-sphere, sphere-sphere, plane-capsule): the jaxpr of the real mjx.collision is
+# interpreted with SYMBOLIC world geom positions and orientation matrices
+
+MJX_SCENES = {
+    'plane-sphere': '<geom name="floor" type="plane" size="5 5 0.1" pos="0.1 0.2 0.05" quat="0.9689124 0.2474040 0 0"/><body name="a" pos="0 0 1"><freejoint/><geom type="sphere" size="0.1" pos="0.1 0.05 -0.02"/></body>',
+    'sphere-sphere': '<body name="a" pos="0 0 1"><freejoint/><geom type="sphere" size="0.1" pos="0.1 0.05 -0.02"/></body><body name="b" pos="0.5 0 1"><freejoint/><geom type="sphere" size="0.15" pos="-0.03 0.02 0.01"/></body>',
+    'plane-capsule': '<geom name="floor" type="plane" size="5 5 0.1" pos="0.1 0.2 0.05" quat="0.9689124 0.2474040 0 0"/><body name="a" pos="0 0 1"><freejoint/><geom type="capsule" size="0.05 0.2" pos="0.1 0.05 -0.02" quat="0.5 0.5 -0.5 0.5"/></body>',
+}
+
+
+def mjx_primitive(kind):
+  def body(A):
+    import z3
+    from mujoco import mjx
+    sys = physsys.load('<mujoco><worldbody>%s</worldbody></mujoco>' % MJX_SCENES[kind])
+    ng = sys.ngeom
+    gp, gm = A.arr('gpos', (ng, 3)), A.arr('gmat', (ng, 3, 3))
+    d0 = mjx.make_data(sys)
+    out = sym_call(Interp(A), lambda p, m_: (lambda c: {'dist': c.dist, 'frame': c.frame, 'pos': c.pos, 'g1': c.geom1, 'g2': c.geom2})(mjx.collision(sys, d0.replace(geom_xpos=p, geom_xmat=m_)).contact), Sym(gp), Sym(gm))
+    g1, g2 = [int(v) for v in np.asarray(out['g1'])], [int(v) for v in np.asarray(out['g2'])]
+    size = np.asarray(sys.geom_size, dtype=float)
+    R = lambda v: z3.RealVal(str(Fraction(float(v))))
+    dot = lambda u, v: sum(x * y for x, y in zip(u, v))
+    col = lambda g, k: [gm[g][i][k] for i in range(3)]
+    pre, goal = [], []
+    ncon = len(g1)
+    if kind == 'plane-sphere':
+      assert ncon == 1
+      pl, sp = g1[0], g2[0]
+      n = col(pl, 2)
+      pre.append(dot(n, n) == 1)
+      want = dot([gp[sp][i] - gp[pl][i] for i in range(3)], n) - R(size[sp][0])
+      goal += [out['dist'][0] == want] + [out['frame'][0][0][i] == n[i] for i in range(3)]
+      # the reported contact position lies on the normal through the sphere centre, half-way between the two surfaces
+      goal += [out['pos'][0][i] == gp[sp][i] - n[i] * (R(size[sp][0]) + want / 2) for i in range(3)]
+    elif kind == 'sphere-sphere':
+      assert ncon == 1
+      a_, b_ = g1[0], g2[0]
+      dvec = [gp[b_][i] - gp[a_][i] for i in range(3)]
+      s = out['dist'][0] + R(size[a_][0]) + R(size[b_][0])          # the centre distance according to the reported dist: it must be THE non-negative root of |c2 - c1|^2
+      goal += [s >= 0, s * s == dot(dvec, dvec)]
+      goal.append(z3.Implies(s > 0, z3.And(*[out['frame'][0][0][i] * s == dvec[i] for i in range(3)])))          # unit normal from the first geom to the second
+    else:
+      assert ncon == 2
+      pl, cp = g1[0], g2[0]
+      n, ax = col(pl, 2), col(cp, 2)
+      pre.append(dot(n, n) == 1)
+      r, h = R(size[cp][0]), R(size[cp][1])
+      ends = [[gp[cp][i] + sgn * h * ax[i] for i in range(3)] for sgn in (1, -1)]
+      wd = [dot([e[i] - gp[pl][i] for i in range(3)], n) - r for e in ends]
+      goal.append(z3.Or(z3.And(out['dist'][0] == wd[0], out['dist'][1] == wd[1]), z3.And(out['dist'][0] == wd[1], out['dist'][1] == wd[0])))
+      for k in range(2):
+        goal += [out['frame'][k][0][i] == n[i] for i in range(3)]
+    return pre, goal, (lambda w: {'reproduced': False, 'note': 'see C10/bounded/primitive_pairs for the native closed-form comparison'})
+  return smt_custom('C10/mjx.collision/%s' % kind, 'mujoco.mjx:collision (external; the contract assumed at the contact.get cut)',
+                    {'plane-sphere': 'for ALL world geom positions and plane orientations (unit normal): dist = n.(c - p) - r, contact normal = plane normal (from the plane to the sphere), contact point on that normal half-way between the surfaces',
+                     'sphere-sphere': 'for ALL centre positions: dist = |c2 - c1| - r1 - r2 and, for distinct centres, the contact normal is the unit vector from the first geom to the second',
+                     'plane-capsule': 'for ALL positions and orientations: the two candidate contacts are the two end spheres: dist = n.(c +- h a - p) - r (a = capsule axis), normal = plane normal'}[kind],
+                    body, timeout=60, budget=600, split_first=True)
+
+
 def obligations(tier):
-  obs = [geom_pose(), link_elasticity(), custom_elasticity(tier), bounded(tier), bounded_custom(tier)]
+  obs = [geom_pose(), link_elasticity(), custom_elasticity(tier), mjx_primitive('plane-sphere'), mjx_primitive('sphere-sphere'), mjx_primitive('plane-capsule'), bounded(tier), bounded_custom(tier)]
 
   def canary():
     from verif.engine.opaque import cut
